@@ -167,7 +167,7 @@ func execute(t *testing.T, sc *Scenario, tier string, params any, ch *Chooser, s
 		if len(sim.Panics) > 0 && res.Violation == "" {
 			res.Panic = sim.Panics[0]
 		}
-		if sim.Overrun() && !sc.BudgetIsVerdict {
+		if sim.Overrun() && (!sc.BudgetIsVerdict || sim.WallAborted()) {
 			// resource guard, not an oracle: whatever the scenario concluded from a run that was
 			// cut short is void
 			res.Violation, res.Signature = "", ""
